@@ -57,13 +57,19 @@ Definition rr_eqb (a : N * N) (b : N * N) : bool := (fst a =? fst b) && (snd a =
 
 Definition judge_ranges (c : (N * N * N) * nat * option (list (N * N))) : verdict :=
   let '(fetch, b, e, fuel, obs) := c in
-  match calc_ranges fuel fetch b e, obs with
-  | RErr, None => if e <? b then V_ok else V_propfalse 0
-  | ROk m, Some o =>
-      match first_diff rr_eqb m o 0 with
-      | Some i => V_mismatch i
-      | None => if chain_b b e o then V_ok else V_propfalse 1
-      end
-  | ROutOfFuel, _ => V_domain 0
-  | _, _ => V_mismatch 0
-  end.
+  (* the property predicate on the implementation's own answer *)
+  let p_impl := match obs with
+                | None => e <? b                 (* refusing is right exactly when begin > end *)
+                | Some o => (b <=? e) && chain_b b e o
+                end in
+  if negb p_impl then V_propfalse 0
+  else match calc_ranges fuel fetch b e, obs with
+       | RErr, None => V_ok
+       | ROk m, Some o =>
+           match first_diff rr_eqb m o 0 with
+           | Some i => V_mismatch i
+           | None => V_ok
+           end
+       | ROutOfFuel, _ => V_domain 0
+       | _, _ => V_mismatch 0
+       end.
